@@ -44,8 +44,8 @@ Record flavor := mkfl {
 }.
 Definition fl_pandas   := mkfl false false false false false false false false true.
 Definition fl_spec     := mkfl false false false false false false false false false.
-Definition fl_sqlite   := mkfl true  true  true  true  true  true  true  false false.
-Definition fl_postgres := mkfl true  true  true  true  true  true  false true  false.
+Definition fl_sqlite   := mkfl true  true  false false true  true  true  false false.   (* maximum/minimum propagate, fmax/fmin skip a NULL since /repo 9699787 *)
+Definition fl_postgres := mkfl true  true  false false true  true  false true  false.
 Definition fl_polars   := mkfl true  true  true  false true  false true  true  false.
 
 Definition num2 (f : Q -> Q -> Q) (a b : val) : val :=
